@@ -693,7 +693,9 @@ class Container:
 
         if not isinstance(max_volume, str):
             raise TypeError("Maximum volume must be a str, ('10 mL').")
-        max_volume, _ = Unit.parse_quantity(max_volume)
+        max_volume, max_volume_unit = Unit.parse_quantity(max_volume)
+        if max_volume_unit != 'L':
+            raise ValueError("Maximum volume must be a volume, ('10 mL').")
         if max_volume <= 0:
             raise ValueError("Maximum volume must be positive.")
         self.name = name
@@ -1533,7 +1535,9 @@ class Plate:
 
         if not isinstance(max_volume_per_well, str):
             raise TypeError("Maximum volume must be a str, ('10 mL').")
-        max_volume_per_well, _ = Unit.parse_quantity(max_volume_per_well)
+        max_volume_per_well, max_volume_unit = Unit.parse_quantity(max_volume_per_well)
+        if max_volume_unit != 'L':
+            raise ValueError("Maximum volume must be a volume, ('10 mL').")
 
         if isinstance(rows, int):
             if rows < 1:
